@@ -71,7 +71,7 @@ where
     type Value = Prev::Output;
     type Reader = MappedMutArc<Inner::Reader, Prev::Output>;
     type Writer =
-        MappedMutArc<WriteGuard<ArcTrigger, Inner::Writer>, Prev::Output>;
+        MappedMutArc<WriteGuard<Vec<ArcTrigger>, Inner::Writer>, Prev::Output>;
 
     fn path(&self) -> impl IntoIterator<Item = StorePathSegment> {
         self.inner
@@ -95,8 +95,15 @@ where
     }
 
     fn writer(&self) -> Option<Self::Writer> {
-        let trigger = self.get_trigger(self.path().into_iter().collect());
-        let inner = WriteGuard::new(trigger.children, self.inner.writer()?);
+        let mut parent = self.inner.writer()?;
+
+        // as in `Subfield::writer`: the parent and ancestor `children` triggers are
+        // included in triggers_for_current_path() below; the parent writer is untracked
+        // so that it doesn't notify on the collection's `this` trigger, which would notify
+        // the fields of every other element too
+        parent.untrack();
+        let triggers = self.triggers_for_current_path();
+        let inner = WriteGuard::new(triggers, parent);
         let index = self.index;
         Some(MappedMutArc::new(
             inner,
